@@ -415,4 +415,353 @@ theorem same_key_same_value (d1 d2 : PlainDec) (h1 : d1.WF) (h2 : d2.WF)
     unfold decValue; rw [hs, hi, hf]
   exact sameValue_trans (key_keeps_value d1) (hk ▸ sameValue_symm (key_keeps_value d2))
 
+
+/-! ### literals with an exponent part -/
+
+/-- a literal with an exponent part: mantissa sign, integer digits, optional point + fraction digits, exponent marker
+(`e E d D`, or none before a signed exponent), exponent sign, exponent digits -/
+structure ExpLit where
+  sign : Option Char
+  ip : List Char
+  fp : List Char
+  hasPoint : Bool
+  marker : Option Char
+  esign : Option Char
+  ed : List Char
+
+def isMarker (c : Char) : Bool := c == 'e' || c == 'E' || c == 'd' || c == 'D'
+
+def ExpLit.WF (l : ExpLit) : Prop :=
+  (∀ c, l.sign = some c → isSign c = true) ∧ (∀ c, l.esign = some c → isSign c = true) ∧
+  (∀ c ∈ l.ip, isDig c = true) ∧ (∀ c ∈ l.fp, isDig c = true) ∧ (∀ c ∈ l.ed, isDig c = true) ∧ l.ed ≠ [] ∧
+  (l.ip ≠ [] ∨ l.fp ≠ []) ∧ (l.hasPoint = false → l.fp = []) ∧ (∀ c, l.marker = some c → isMarker c = true) ∧
+  (l.marker = none → l.esign ≠ none)
+
+def optC (o : Option Char) : List Char := match o with | some c => [c] | none => []
+
+def ExpLit.mant (l : ExpLit) : List Char := l.ip ++ (if l.hasPoint then '.' :: l.fp else [])
+def ExpLit.tail (l : ExpLit) : List Char := optC l.marker ++ optC l.esign ++ l.ed
+def ExpLit.chars (l : ExpLit) : List Char := optC l.sign ++ l.mant ++ l.tail
+
+theorem marker_props (c : Char) (h : isMarker c = true) : isDig c = false ∧ isSign c = false ∧ (c == '.') = false := by
+  simp only [isMarker, Bool.or_eq_true, beq_iff_eq] at h
+  rcases h with ((rfl | rfl) | rfl) | rfl <;> decide
+
+theorem sign_props (c : Char) (h : isSign c = true) : isDig c = false ∧ (c == '.') = false ∧ isMarker c = false := by
+  simp only [isSign, Bool.or_eq_true, beq_iff_eq] at h
+  rcases h with rfl | rfl <;> decide
+
+theorem dig_props (c : Char) (h : isDig c = true) : isSign c = false ∧ (c == '.') = false ∧ isMarker c = false := by
+  refine ⟨digit_not_sign c h, ?_, ?_⟩
+  · cases hc : (c == '.') with
+    | false => rfl
+    | true => rw [beq_iff_eq.mp hc] at h; exact absurd h (by decide)
+  · cases hm : isMarker c with
+    | false => rfl
+    | true => rw [(marker_props c hm).1] at h; cases h
+
+/-- the tail (marker, exponent sign, exponent digits) starts with a character that is not a digit -/
+theorem tail_head (l : ExpLit) (hw : l.WF) : ∃ c r, l.tail = c :: r ∧ isDig c = false ∧ (c == '.') = false := by
+  obtain ⟨_, hes, _, _, _, hne, _, _, hm, hmn⟩ := hw
+  unfold ExpLit.tail
+  cases hmk : l.marker with
+  | some m => exact ⟨m, _, rfl, (marker_props m (hm m hmk)).1, (marker_props m (hm m hmk)).2.2⟩
+  | none =>
+    cases hsg : l.esign with
+    | none => exact absurd hsg (hmn hmk)
+    | some s => exact ⟨s, _, rfl, (sign_props s (hes s hsg)).1, (sign_props s (hes s hsg)).2.1⟩
+
+theorem splitSign_exp (l : ExpLit) (hw : l.WF) : splitSign l.chars = (optC l.sign, l.mant ++ l.tail) := by
+  obtain ⟨hs, _, hi, hf, _, _, hne, hp, _, _⟩ := hw
+  unfold ExpLit.chars
+  cases hsg : l.sign with
+  | some c => simp [optC, splitSign, hs c hsg]
+  | none =>
+    simp only [optC, List.nil_append]
+    -- the first character of the mantissa is a digit or the point
+    unfold ExpLit.mant
+    cases hip : l.ip with
+    | cons a r => simp [splitSign, digit_not_sign a (hi a (by simp [hip]))]
+    | nil =>
+      have hfp : l.fp ≠ [] := by rcases hne with h | h; exact absurd hip h; exact h
+      have hpt : l.hasPoint = true := by
+        cases h : l.hasPoint with
+        | true => rfl
+        | false => exact absurd (hp h) hfp
+      simp [hpt, splitSign, isSign]
+
+theorem mant_split (l : ExpLit) (hw : l.WF) :
+    (l.mant ++ l.tail).takeWhile isDig = l.ip ∧
+    (l.mant ++ l.tail).dropWhile isDig = (if l.hasPoint then '.' :: (l.fp ++ l.tail) else l.tail) := by
+  obtain ⟨c, r, htl, hcd, _⟩ := tail_head l hw
+  obtain ⟨_, _, hi, _, _, _, _, _, _, _⟩ := hw
+  unfold ExpLit.mant
+  cases hpt : l.hasPoint with
+  | true =>
+    simp only [if_true, List.append_assoc, List.cons_append]
+    exact takeWhile_append_stop' l.ip _ hi (fun c' r' h => by injection h with h1 _; subst h1; decide)
+  | false =>
+    simp only [Bool.false_eq_true, if_false, List.append_nil]
+    exact takeWhile_append_stop' l.ip _ hi (fun c' r' h => by rw [htl] at h; injection h with h1 _; subst h1; exact hcd)
+
+theorem frac_split (l : ExpLit) (hw : l.WF) :
+    (l.fp ++ l.tail).takeWhile isDig = l.fp ∧ (l.fp ++ l.tail).dropWhile isDig = l.tail := by
+  obtain ⟨c, r, htl, hcd, _⟩ := tail_head l hw
+  exact takeWhile_append_stop' l.fp _ hw.2.2.2.1 (fun c' r' h => by rw [htl] at h; injection h with h1 _; subst h1; exact hcd)
+
+/-- pass 1 leaves a literal with an exponent alone -/
+theorem nfStripZeros_exp (l : ExpLit) (hw : l.WF) : nfStripZeros l.chars = l.chars := by
+  obtain ⟨c, r, htl, hcd, _⟩ := tail_head l hw
+  unfold nfStripZeros
+  rw [splitSign_exp l hw]
+  simp only [(mant_split l hw).1, (mant_split l hw).2]
+  cases hpt : l.hasPoint with
+  | false =>
+    simp only [Bool.false_eq_true, if_false]
+    rw [htl]
+    split
+    · rename_i fp heq
+      injection heq with h1 _
+      subst h1
+      simp at *
+    · rfl
+  | true =>
+    simp only [if_true]
+    have : (l.fp ++ l.tail).all isDig = false := by
+      rw [htl, List.all_append]
+      simp [hcd]
+    simp [this]
+
+theorem chars_last (l : ExpLit) (hw : l.WF) : ∃ d, l.chars.getLast? = some d ∧ isDig d = true := by
+  obtain ⟨_, _, _, _, hed, hne, _⟩ := hw
+  cases hl : l.ed.getLast? with
+  | none => exact absurd (List.getLast?_eq_none_iff.mp hl) hne
+  | some d =>
+    refine ⟨d, ?_, hed d (List.mem_of_getLast? hl)⟩
+    unfold ExpLit.chars ExpLit.tail
+    simp [List.getLast?_append, hl]
+
+theorem nfPointZero_exp (l : ExpLit) (hw : l.WF) : nfPointZero l.chars = l.chars := by
+  obtain ⟨d, hd, hdd⟩ := chars_last l hw
+  unfold nfPointZero
+  rw [hd]
+  have : d ≠ '.' := by intro h; subst h; exact absurd hdd (by decide)
+  simp [this]
+
+/-- the literal with the marker `e` written out -/
+def ExpLit.withE (l : ExpLit) : ExpLit := { l with marker := some 'e' }
+
+/-- pass 3: a bare signed exponent gets its `e`; a literal that has a marker is left alone -/
+theorem nfInsertE_exp (l : ExpLit) (hw : l.WF) :
+    nfInsertE l.chars = (match l.marker with | some _ => l.chars | none => l.withE.chars) := by
+  obtain ⟨hs, hes, hi, hf, hed, hne, hmant, hp, hm, hmn⟩ := hw
+  have hw' : l.WF := ⟨hs, hes, hi, hf, hed, hne, hmant, hp, hm, hmn⟩
+  unfold nfInsertE
+  rw [splitSign_exp l hw']
+  simp only [(mant_split l hw').1, (mant_split l hw').2]
+  have hnot : (l.ip.isEmpty && l.fp.isEmpty) = false := by
+    rcases hmant with h | h
+    · cases hh : l.ip with
+      | nil => exact absurd hh h
+      | cons a r => rfl
+    · cases hh : l.fp with
+      | nil => exact absurd hh h
+      | cons a r => simp
+  cases hpt : l.hasPoint with
+  | true =>
+    simp only [if_true, (frac_split l hw').1, (frac_split l hw').2, hnot, Bool.false_eq_true, if_false]
+    cases hmk : l.marker with
+    | some m =>
+      have hmm := marker_props m (hm m hmk)
+      simp [ExpLit.tail, hmk, optC, hmm.2.1]
+    | none =>
+      cases hsg : l.esign with
+      | none => exact absurd hsg (hmn hmk)
+      | some c =>
+        have hc := hes c hsg
+        have hall : l.ed.all isDig = true := List.all_eq_true.mpr hed
+        have hemp : l.ed.isEmpty = false := by cases hh : l.ed with | nil => exact absurd hh hne | cons a r => rfl
+        simp [ExpLit.tail, hmk, hsg, optC, hc, hall, hemp, ExpLit.withE, ExpLit.chars, ExpLit.mant, hpt]
+  | false =>
+    have hfp : l.fp = [] := hp hpt
+    obtain ⟨c0, r0, htl, hcd, hcp⟩ := tail_head l hw'
+    have hnot' : (l.ip.isEmpty && ([] : List Char).isEmpty) = false := by rw [hfp] at hnot; exact hnot
+    have hipne : ¬ l.ip = [] := by
+      intro h; rw [h] at hnot'; simp at hnot'
+    simp only [Bool.false_eq_true, if_false]
+    cases hmk : l.marker with
+    | some m =>
+      have hmm := hm m hmk
+      simp only [isMarker, Bool.or_eq_true, beq_iff_eq] at hmm
+      rcases hmm with ((rfl | rfl) | rfl) | rfl <;>
+        simp [ExpLit.tail, hmk, optC, hnot', isSign, hipne]
+    | none =>
+      cases hsg : l.esign with
+      | none => exact absurd hsg (hmn hmk)
+      | some c =>
+        have hc := hes c hsg
+        have hall : l.ed.all isDig = true := List.all_eq_true.mpr hed
+        have hemp : l.ed.isEmpty = false := by cases hh : l.ed with | nil => exact absurd hh hne | cons a r => rfl
+        simp only [isSign, Bool.or_eq_true, beq_iff_eq] at hc
+        rcases hc with rfl | rfl <;>
+          simp [ExpLit.tail, hmk, hsg, optC, hnot', isSign, hall, hemp, ExpLit.withE, ExpLit.chars, ExpLit.mant, hpt, hipne]
+
+theorem withE_WF (l : ExpLit) (hw : l.WF) : l.withE.WF := by
+  obtain ⟨hs, hes, hi, hf, hed, hne, hmant, hp, hm, hmn⟩ := hw
+  exact ⟨hs, hes, hi, hf, hed, hne, hmant, hp, fun c hc => by cases hc; decide, fun h => by cases h⟩
+
+theorem nfMarkers_keep (l : List Char) (h : ∀ c ∈ l, isMarker c = false) : nfMarkers l = l := by
+  unfold nfMarkers
+  induction l with
+  | nil => rfl
+  | cons c r ih =>
+    have hc := h c (by simp)
+    have : (c == 'E' || c == 'd' || c == 'D') = false := by
+      simp only [isMarker, Bool.or_eq_false_iff] at hc
+      simp [hc.1.1.2, hc.1.2, hc.2]
+    simp only [List.map_cons, this, Bool.false_eq_true, if_false]
+    rw [ih (fun x hx => h x (by simp [hx]))]
+
+/-- pass 4 on a literal with an exponent: the marker becomes `e`, nothing else changes -/
+theorem nfMarkers_exp (l : ExpLit) (hw : l.WF) (hmk : l.marker ≠ none) : nfMarkers l.chars = l.withE.chars := by
+  obtain ⟨hs, hes, hi, hf, hed, hne, hmant, hp, hm, hmn⟩ := hw
+  have k1 : nfMarkers (optC l.sign) = optC l.sign := nfMarkers_keep _ (by
+    intro c hc; cases hsg : l.sign with
+    | none => simp [optC, hsg] at hc
+    | some x => simp only [optC, hsg, List.mem_singleton] at hc; rw [hc]; exact (sign_props x (hs x hsg)).2.2)
+  have k2 : nfMarkers l.mant = l.mant := nfMarkers_keep _ (by
+    intro c hc
+    unfold ExpLit.mant at hc
+    rcases List.mem_append.mp hc with h | h
+    · exact (dig_props c (hi c h)).2.2
+    · cases hpt : l.hasPoint with
+      | false => simp [hpt] at h
+      | true =>
+        simp only [hpt, if_true, List.mem_cons] at h
+        rcases h with rfl | h
+        · decide
+        · exact (dig_props c (hf c h)).2.2)
+  have k3 : nfMarkers (optC l.esign ++ l.ed) = optC l.esign ++ l.ed := nfMarkers_keep _ (by
+    intro c hc
+    rcases List.mem_append.mp hc with h | h
+    · cases hsg : l.esign with
+      | none => simp [optC, hsg] at h
+      | some x => simp only [optC, hsg, List.mem_singleton] at h; rw [h]; exact (sign_props x (hes x hsg)).2.2
+    · exact (dig_props c (hed c h)).2.2)
+  have happ : ∀ a b : List Char, nfMarkers (a ++ b) = nfMarkers a ++ nfMarkers b := by
+    intro a b; simp [nfMarkers]
+  cases hmk' : l.marker with
+  | none => exact absurd hmk' hmk
+  | some m =>
+    have hmm := hm m hmk'
+    have km : nfMarkers [m] = ['e'] := by
+      simp only [isMarker, Bool.or_eq_true, beq_iff_eq] at hmm
+      rcases hmm with ((rfl | rfl) | rfl) | rfl <;> decide
+    have km' : nfMarkers (optC (some m)) = optC (some 'e') := km
+    have hmant' : ({ l with marker := some 'e' } : ExpLit).mant = l.mant := rfl
+    unfold ExpLit.chars ExpLit.tail ExpLit.withE
+    simp only [hmk', hmant']
+    rw [happ, happ, k1, k2, List.append_assoc (optC (some m)), happ, km', k3, List.append_assoc (optC (some 'e'))]
+
+/-- **`normalize_float` on a literal with an exponent**: the marker (`e`, `E`, `d`, `D` or none before a signed
+exponent) becomes `e`; sign, digits, point, exponent sign and exponent digits are kept as written -/
+theorem normalizeFloat_exp (l : ExpLit) (hw : l.WF) : normalizeFloat l.chars = l.withE.chars := by
+  unfold normalizeFloat
+  rw [nfStripZeros_exp l hw, nfPointZero_exp l hw, nfInsertE_exp l hw]
+  cases hmk : l.marker with
+  | some m => exact nfMarkers_exp l hw (by rw [hmk]; simp)
+  | none =>
+    have := nfMarkers_exp l.withE (withE_WF l hw) (by simp [ExpLit.withE])
+    simpa [ExpLit.withE] using this
+
+/-- what the literal denotes (the reading of `parseRealLit`, the spec of Fortran real literals) -/
+def ExpLit.lit (l : ExpLit) : RealLit :=
+  { neg := optC l.sign == ['-'], ip := l.ip, fp := l.fp, hasPoint := l.hasPoint,
+    exp := some (optC l.esign == ['-'], l.ed), marker := l.marker }
+
+theorem parse_exp (l : ExpLit) (hw : l.WF) : parseRealLit l.chars = some l.lit := by
+  obtain ⟨hs, hes, hi, hf, hed, hne, hmant, hp, hm, hmn⟩ := hw
+  have hw' : l.WF := ⟨hs, hes, hi, hf, hed, hne, hmant, hp, hm, hmn⟩
+  have hnot : (l.ip.isEmpty && l.fp.isEmpty) = false := by
+    rcases hmant with h | h
+    · cases hh : l.ip with
+      | nil => exact absurd hh h
+      | cons a r => rfl
+    · cases hh : l.fp with
+      | nil => exact absurd hh h
+      | cons a r => simp
+  have hall : l.ed.all isDig = true := List.all_eq_true.mpr hed
+  have hemp : l.ed.isEmpty = false := by cases hh : l.ed with | nil => exact absurd hh hne | cons a r => rfl
+  -- the exponent digits do not start with a sign
+  have hsplit : splitSign (optC l.esign ++ l.ed) = (optC l.esign, l.ed) := by
+    cases hsg : l.esign with
+    | some c => simp [optC, splitSign, hes c hsg]
+    | none =>
+      cases hh : l.ed with
+      | nil => exact absurd hh hne
+      | cons a r => simp [optC, splitSign, digit_not_sign a (hed a (by simp [hh]))]
+  have hsplit' := hsplit
+  simp only [optC] at hsplit'
+  unfold parseRealLit
+  rw [splitSign_exp l hw']
+  simp only [(mant_split l hw').1, (mant_split l hw').2]
+  cases hpt : l.hasPoint with
+  | true =>
+    simp only [if_true, (frac_split l hw').1, (frac_split l hw').2, hnot, Bool.false_eq_true, if_false]
+    cases hmk : l.marker with
+    | some m =>
+      have hmm := hm m hmk
+      simp only [isMarker, Bool.or_eq_true, beq_iff_eq] at hmm
+      rcases hmm with ((rfl | rfl) | rfl) | rfl <;>
+        simp [ExpLit.tail, hmk, optC, hsplit', hall, hemp, ExpLit.lit, hpt]
+    | none =>
+      cases hsg : l.esign with
+      | none => exact absurd hsg (hmn hmk)
+      | some c =>
+        have hc := hes c hsg
+        simp only [isSign, Bool.or_eq_true, beq_iff_eq] at hc
+        rcases hc with rfl | rfl <;>
+          simp [ExpLit.tail, hmk, hsg, optC, splitSign, isSign, hall, hemp, ExpLit.lit, hpt]
+  | false =>
+    have hfp : l.fp = [] := hp hpt
+    have hipne : ¬ l.ip = [] := by
+      intro h; rw [h, hfp] at hnot; simp at hnot
+    simp only [Bool.false_eq_true, if_false]
+    cases hmk : l.marker with
+    | some m =>
+      have hmm := hm m hmk
+      simp only [isMarker, Bool.or_eq_true, beq_iff_eq] at hmm
+      rcases hmm with ((rfl | rfl) | rfl) | rfl <;>
+        simp [ExpLit.tail, hmk, optC, hsplit', hall, hemp, ExpLit.lit, hpt, hipne, hfp]
+    | none =>
+      cases hsg : l.esign with
+      | none => exact absurd hsg (hmn hmk)
+      | some c =>
+        have hc := hes c hsg
+        simp only [isSign, Bool.or_eq_true, beq_iff_eq] at hc
+        rcases hc with rfl | rfl <;>
+          simp [ExpLit.tail, hmk, hsg, optC, splitSign, isSign, hall, hemp, ExpLit.lit, hpt, hipne, hfp]
+
+/-- **the key of a literal with an exponent denotes the same number**: both spellings are read (by the spec reader
+`parseRealLit`) to the same mantissa, the same power of ten -/
+theorem exp_key_keeps_value (l : ExpLit) (hw : l.WF) :
+    ∃ a b, parseRealLit l.chars = some a ∧ parseRealLit (normalizeFloat l.chars) = some b ∧ a.value = b.value := by
+  refine ⟨l.lit, l.withE.lit, parse_exp l hw, ?_, rfl⟩
+  rw [normalizeFloat_exp l hw]
+  exact parse_exp l.withE (withE_WF l hw)
+
+/-- all marker spellings of one exponent literal share one key -/
+theorem exp_markers_share_key (l : ExpLit) (hw : l.WF) (m : Option Char) (hm : ∀ c, m = some c → isMarker c = true)
+    (hmn : m = none → l.esign ≠ none) :
+    normalizeFloat ({ l with marker := m } : ExpLit).chars = normalizeFloat l.chars := by
+  have hw2 : ({ l with marker := m } : ExpLit).WF := by
+    obtain ⟨hs, hes, hi, hf, hed, hne, hmant, hp, _, _⟩ := hw
+    exact ⟨hs, hes, hi, hf, hed, hne, hmant, hp, hm, hmn⟩
+  rw [normalizeFloat_exp _ hw2, normalizeFloat_exp l hw]
+  rfl
+
+/-- non-vacuity: `-1.5d+2` -/
+example : (⟨some '-', ['1'], ['5'], true, some 'd', some '+', ['2']⟩ : ExpLit).WF := by
+  refine ⟨?_, ?_, ?_, ?_, ?_, ?_, ?_, ?_, ?_, ?_⟩ <;> simp [isSign, isDig, isMarker, Char.isDigit]
+example : normalizeFloat "-1.5d+2".toList = "-1.5e+2".toList := by decide
 end T4V.C09
